@@ -69,9 +69,26 @@ pub fn tie_graphs(rng: &mut ChaCha8Rng, thorough: bool) -> Vec<Value> {
         (false, vec![(5, 4, 9, 0), (5, 3, 3, 0), (4, 6, 3, 0), (4, 1, 13, 0), (1, 2, 1, 0), (5, 2, 13, 0), (3, 4, 13, 0), (3, 1, 7, 0), (2, 4, 9, 0), (5, 1, 13, 0), (3, 2, 13, 0)]),
     ] {
         let ns: Vec<NodeArg> = if directed { vec![(1, 0), (3, 0), (2, 0)] } else { vec![(4, 0), (6, 0), (3, 0), (2, 0), (1, 0), (5, 0)] };
+        let _ = &ns;
         let mut case = case_json(sp(directed), &[Op::AddNodes(ns), Op::AddEdges(es)], "frac");
         case["wdiv"] = json!(10);
         case["runs"] = json!(300);
+        case["seeds"] = json!(4);
+        out.push(case);
+    }
+    // an exact tie that only exact arithmetic sees: two heavy triangles and a hub attached to one by
+    // 0.1 + 0.2 + 0.3 and to the other by 0.6 (the float sum is 0.6 or 0.6000000000000001 by order)
+    for directed in [false, true] {
+        let mut es: Vec<EdgeArg> = vec![];
+        for (u, v, w) in [(1, 2, 40), (2, 3, 40), (1, 3, 40), (4, 5, 40), (5, 6, 40), (4, 6, 40), (7, 1, 1), (7, 2, 2), (7, 3, 3), (7, 4, 6)] {
+            es.push((u, v, w, 0));
+            if directed {
+                es.push((v, u, w, 0));
+            }
+        }
+        let mut case = case_json(sp(directed), &[Op::AddNodes((1..=7).map(|x| (x, 0)).collect()), Op::AddEdges(es)], "frac");
+        case["wdiv"] = json!(10);
+        case["runs"] = json!(200);
         case["seeds"] = json!(4);
         out.push(case);
     }
@@ -108,10 +125,26 @@ fn distinct_of(results: &[Value]) -> Vec<Value> {
 }
 
 /// Executed inside a worker: `n` seeded louvain calls on one graph, optionally inside a pool.
-pub fn louvain_repeat(g: &G, args: &Value) -> Value {
+/// Every second call is made on a graph built afresh from the same history: equal graphs, but each
+/// instance's hash-based stores iterate in their own order ("each call sees freshly keyed hash tables").
+pub fn louvain_repeat(g: &G, specs: SpecsJ, ops: &[Op], args: &Value) -> Value {
     let n = args["n"].as_u64().unwrap_or(1);
     let pool = args["pool"].as_u64().unwrap_or(0) as usize;
-    let run = || -> Vec<Value> { (0..n).map(|_| louvain_call(g, &args["call"])).map(|r| json!({"ans": r["ans"], "comm": r["comm"]})).collect() };
+    let div = wdiv();
+    let run = || -> Vec<Value> {
+        (0..n)
+            .map(|i| {
+                if i % 2 == 1 {
+                    set_wdiv(div); // thread-local: the closure may run on a pool thread
+                    let fresh = build(specs, ops);
+                    louvain_call(&fresh, &args["call"])
+                } else {
+                    louvain_call(g, &args["call"])
+                }
+            })
+            .map(|r| json!({"ans": r["ans"], "comm": r["comm"]}))
+            .collect()
+    };
     let results = if pool > 0 { rayon::ThreadPoolBuilder::new().num_threads(pool).build().unwrap().install(run) } else { run() };
     json!({"e": "", "results": distinct_of(&results), "runs": n})
 }
